@@ -143,6 +143,16 @@ func copyFile(src, dst string) error {
 var journalMagic = []byte{0xd9, 0xd5, 0x05, 0xf9, 0x20, 0xa1, 0x63, 0xd7}
 
 func runWriter(r *vt.Run, t vt.TB, dir, db string, s spec, k int, torn bool, logPath string) int {
+	return runWriterM(r, t, dir, db, db, s, k, torn, logPath)
+}
+
+// runWriterMatch counts (and crashes at) the operations on every file whose
+// path contains match.
+func runWriterMatch(r *vt.Run, t vt.TB, dir, db, match string, s spec, k int, logPath string) int {
+	return runWriterM(r, t, dir, db, match, s, k, false, logPath)
+}
+
+func runWriterM(r *vt.Run, t vt.TB, dir, db, match string, s spec, k int, torn bool, logPath string) int {
 	var cmd *exec.Cmd
 	if _, err := os.Stat(locks.ToolPath("crashwriter")); err == nil {
 		stmtFile := filepath.Join(dir, "writer.sql")
@@ -174,7 +184,7 @@ func runWriter(r *vt.Run, t vt.TB, dir, db string, s spec, k int, torn bool, log
 		}
 		cmd = exec.Command(py, filepath.Join(vt.Root(), "tools", "crashwriter.py"), specFile)
 	}
-	cmd.Env = append(os.Environ(), "LD_PRELOAD="+locks.ToolPath("crashshim.so"), "CRASH_MATCH="+db)
+	cmd.Env = append(os.Environ(), "LD_PRELOAD="+locks.ToolPath("crashshim.so"), "CRASH_MATCH="+match)
 	if logPath != "" {
 		cmd.Env = append(cmd.Env, "CRASH_LOG="+logPath)
 	}
